@@ -45,10 +45,12 @@ class Harness:
         self.switch = switch
         self.mode = mode
         self.variant = variant
-        self.specs = {c: spec_for_cfg(self.spec0, c) for c in self.cfgs}
+        import copy as _copy
+        # one private copy per configuration: Index annotates the spec in place (state ids are family specific)
+        self.specs = {c: _copy.deepcopy(spec_for_cfg(self.spec0, c)) for c in self.cfgs}
         self.ixs = {}
         for c in self.cfgs:
-            self.ixs[c] = Index(self.specs[c])
+            self.ixs[c] = Index(self.specs[c], build.FAMNAME[c])
         self.bins = {}
 
     def jobs(self):
